@@ -179,4 +179,65 @@ Proof.
   apply acts_sorted. apply (t_mono _ _ HB).
 Qed.
 
+(* ---------- C22: an interning cut short by a panic in user code ---------- *)
+
+(* A call that unwinds out of the event callback leaves the state of an ordinary atomic
+   operation of the model: the full interning on the cold and reuse paths (all writes come
+   before the first callback), a `maybe_changed_after`-style revalidation of the slot on
+   the fast path.  So a history with such calls is a history of `run`, and every theorem
+   above applies to it. *)
+Theorem cut_callback_is_step s v sp fr :
+  exists o out evs,
+    step shard_of c s o = (fst (fst (intern_cut shard_of c s v sp fr CutCallback)), out, evs) /\
+    ((exists t, o = OIntern t v sp fr) \/ (exists t idx gen since, o = OMca t idx gen since)).
+Proof.
+  unfold intern_cut.
+  destruct (intern shard_of c s v sp fr) as [[s' out] evs] eqn:E.
+  assert (Hfull : exists o out0 evs0,
+            step shard_of c s o = (s', out0, evs0) /\
+            ((exists t, o = OIntern t v sp fr) \/
+             (exists t idx gen since, o = OMca t idx gen since))).
+  { exists (OIntern 0 v sp fr), out, evs. cbn [step]. split; [exact E|]. left. now exists 0. }
+  destruct out as [idx gen p| | | |]; try exact Hfull.
+  destruct p; try exact Hfull.
+  destruct (st_slots s idx) as [sl|] eqn:Hsl; [|exact Hfull].
+  destruct (s_lia sl <? st_cur s); [|exact Hfull].
+  exists (OMca 0 idx (s_gen sl) 0). cbn [step fst]. unfold mca. rewrite Hsl, N.ltb_irrefl.
+  do 2 eexists. split; [reflexivity|]. right. now exists 0, idx, (s_gen sl), 0.
+Qed.
+
+(* On the cold and reuse paths the state at the commit point (before `clear_memos` and the
+   DidReuse / DidIntern callbacks) is the state of the completed call, whatever part of the
+   trailing callbacks runs. *)
+Theorem cut_commit_state s t v sp fr s' idx g p evs :
+  step shard_of c s (OIntern t v sp fr) = (s', RIntern idx g p, evs) -> p <> PFast ->
+  intern_cut shard_of c s v sp fr CutCallback = (s', RIntern idx g p, evs).
+Proof.
+  cbn [step]. intros E Hp. unfold intern_cut. rewrite E. destruct p; congruence.
+Qed.
+
+(* The invariant of C08/C09 holds after a cut interning, at whichever point it was cut. *)
+Theorem cut_invariant ops s tr :
+  cfg_ok c -> run shard_of c ops = (s, tr) ->
+  forall v sp fr w, Inv shard_of c (fst (fst (intern_cut shard_of c s v sp fr w))).
+Proof.
+  intros Hc H v sp fr w. pose proof (invariant _ _ _ Hc H) as HI.
+  destruct w.
+  - cbn [intern_cut fst]. destruct HI as [Hcur [HS HQ]].
+    split; [exact Hcur|]. split.
+    + eapply SInv_same; eauto; try reflexivity; cbn [set_queue st_cur]; lia.
+    + cbn [set_queue st_cur st_queue]. now apply queue_ok_record.
+  - destruct (cut_callback_is_step s v sp fr) as [o [out [evs [Hstep _]]]].
+    eapply step_Inv; eauto.
+Qed.
+
+(* ... and what a cut interning changes is confined to what the completed call, or a
+   revalidation of the same slot, would have changed: no key-map entry and no slot of
+   another value is touched by a call that unwinds before its commit point. *)
+Theorem cut_early_frame s v sp fr :
+  let s' := fst (fst (intern_cut shard_of c s v sp fr CutEarly)) in
+  st_cur s' = st_cur s /\ st_slots s' = st_slots s /\ st_keys s' = st_keys s /\
+  st_lru s' = st_lru s /\ st_queue s' = record_active c s.
+Proof. cbn [intern_cut fst set_queue st_cur st_slots st_keys st_lru st_queue]. auto. Qed.
+
 End Theorems.
